@@ -183,10 +183,10 @@ impl Family for Scalars {
                     n += 1;
                 }
                 expect_text(&V::Bytes(b"NULL".to_vec()), "Value::Bytes NULL-text", |t| t == b"NULL")?;
-                expect_text(&V::Date(2024, 2, 29, 23, 59, 58, 7), "Value::Date 2024-02-29 23:59:58.000007", |t| t == b"2024-02-29 23:59:58.000007")?;
-                expect_text(&V::Date(1, 1, 1, 0, 0, 0, 0), "Value::Date 0001-01-01", |t| t == b"0001-01-01 00:00:00")?;
-                expect_text(&V::Time(false, 34, 22, 59, 59, 999999), "Value::Time 838:59:59.999999", |t| t == b"838:59:59.999999")?;
-                expect_text(&V::Time(false, 0, 0, 0, 0, 0), "Value::Time zero", |t| t == b"00:00:00")?;
+                expect_text(&V::Date(2024, 2, 29, 23, 59, 58, 7), "Value::Date 2024-02-29 23:59:58.000007", |t| t.len() >= 19 && parse_date(&t[..10]) == Some((2024, 2, 29)) && parse_time(&t[11..]) == Some((23, 59, 58, 7)))?;
+                expect_text(&V::Date(1, 1, 1, 0, 0, 0, 0), "Value::Date 0001-01-01", |t| t.len() >= 19 && parse_date(&t[..10]) == Some((1, 1, 1)) && parse_time(&t[11..]) == Some((0, 0, 0, 0)))?;
+                expect_text(&V::Time(false, 34, 22, 59, 59, 999999), "Value::Time 838:59:59.999999", |t| parse_time(t) == Some((838, 59, 59, 999999)))?;
+                expect_text(&V::Time(false, 0, 0, 0, 0, 0), "Value::Time zero", |t| parse_time(t) == Some((0, 0, 0, 0)))?;
                 // NULLs stay distinguishable
                 for (what, b) in [("None::<i32>", enc(&None::<i32>)?), ("Value::NULL", enc(&V::NULL)?), ("None::<String>", enc(&None::<String>)?)] {
                     if decode_cell(&b, what)?.is_some() {
@@ -325,7 +325,7 @@ impl Family for Temporal {
                         if t.len() < 19 || t[10] != b' ' {
                             return false;
                         }
-                        parse_date(&t[..10]) == Some((yy, mm, dd)) && parse_time(&t[11..]) == Some((dt.hour() as u64, dt.minute(), dt.second(), us)) && (us != 0) == (t.len() == 26)
+                        parse_date(&t[..10]) == Some((yy, mm, dd)) && parse_time(&t[11..]) == Some((dt.hour() as u64, dt.minute(), dt.second(), us))
                     })?;
                     n += 1;
                 }
@@ -356,7 +356,7 @@ impl Family for Temporal {
                 for s in 0..60u64 {
                     for us in US {
                         let d = Duration::new(h * 3600 + m * 60 + s, us * 1000);
-                        expect_text(&d, &format!("Duration {}:{:02}:{:02}.{:06}", h, m, s, us), move |t| parse_time(t) == Some((h, m as u32, s as u32, us)) && (us != 0) == t.contains(&b'.'))?;
+                        expect_text(&d, &format!("Duration {}:{:02}:{:02}.{:06}", h, m, s, us), move |t| parse_time(t) == Some((h, m as u32, s as u32, us)))?;
                         n += 1;
                     }
                 }
@@ -453,6 +453,26 @@ fn palette() -> Vec<(Val, Option<Vec<u8>>)> {
     ]
 }
 
+/// equal, or — for floats and temporal values — another spelling of the same value
+fn text_cell_equivalent(v: &Val, got: &Cell, want: &Cell) -> bool {
+    if got == want {
+        return true;
+    }
+    let (g, w) = match (got, want) {
+        (Cell::Text(g), Cell::Text(w)) => (g, w),
+        _ => return false,
+    };
+    match v {
+        Val::F64(_) | Val::F32(_) => {
+            let p = |b: &[u8]| std::str::from_utf8(b).ok().and_then(|s| s.parse::<f64>().ok()).map(|x| x.to_bits());
+            p(g).is_some() && p(g) == p(w)
+        }
+        Val::Dur(_) => parse_time(g).is_some() && parse_time(g) == parse_time(w),
+        Val::DateTime(_) => g.len() >= 19 && w.len() >= 19 && g[..11] == w[..11] && parse_time(&g[11..]).is_some() && parse_time(&g[11..]) == parse_time(&w[11..]),
+        _ => false,
+    }
+}
+
 /// row/column arrangements through write_col / write_row and the real run_on
 struct Rows {
     pal: Vec<(Val, Option<Vec<u8>>)>,
@@ -537,7 +557,7 @@ impl Family for Rows {
                             None => Cell::Null,
                             Some(b) => Cell::Text(b.clone()),
                         };
-                        if rows[i][j] != want {
+                        if !text_cell_equivalent(&self.pal[cells[i * c + j]].0, &rows[i][j], &want) {
                             return Err(Violation::new("cell-differs", format!("row {} column {}: wrote {:?}, client decodes {:?}", i, j, val_short(&self.pal[cells[i * c + j]].0), rows[i][j])));
                         }
                     }
